@@ -108,6 +108,7 @@ class StubsBase:
         b["open"] = Stub(self.b_open, "open")
         b["callable"] = Stub(lambda ctx, v: isinstance(v, (Stub, FuncVal, Bound, ClassRef)), "callable")
         b["True"], b["False"], b["None"] = True, False, None
+        b["Ellipsis"] = V.Ellip()
 
         # stdlib modules
         self.ext["operator"] = NS("operator", {
